@@ -1816,6 +1816,7 @@ def _skip_filter_ctor(ex, st, args, kwargs, node):
     pos = z3.Function(fresh_name("skippos"), z3.StringSort(), z3.IntSort())
     st.assume(z3.ForAll([i_], z3.Implies(z3.And(i_ >= 0, i_ < z3.Length(L)), z3.Select(S, L[i_]))))
     st.assume(z3.ForAll([x_], z3.Implies(z3.Select(S, x_), z3.And(pos(x_) >= 0, pos(x_) < z3.Length(L), L[pos(x_)] == x_)), patterns=[z3.Select(S, x_)]))
+    st.assume(z3.ForAll([x_], z3.Select(S, x_) == z3.Contains(L, z3.Unit(x_))))   # ... and membership in the list as such (`x in names` in clauses)
     ex.write_field(st, ns, "names", Val(Set(STR), S), node)
     opts = ex.new_object(st, "SXOptions")
     ex.write_field(st, opts, "skipExportGlyphs", ns, node)
